@@ -1980,6 +1980,9 @@ func marshalInet(info TypeInfo, value interface{}) ([]byte, error) {
 	case net.IP:
 		t := val.To4()
 		if t == nil {
+			if len(val) != 0 && len(val) != net.IPv6len {
+				return nil, marshalErrorf("cannot marshal net.IP of %d bytes into %s", len(val), info)
+			}
 			return val.To16(), nil
 		}
 		return t, nil
